@@ -69,6 +69,7 @@ fn judge_message(m: &RefMsg, loc: &mut Local) {
 }
 
 pub fn run(ctx: &Ctx) {
+    ctx.enable_trace_pass(ctx.tier.pick(4000u64, 40000u64));
     ctx.set_rule("case = (message of U, cut position); every message is explored as is and, when it has no storage header, again with one prepended; a state is a distinct message encoding (x mode), evaluations count (message, cut) pairs; all cuts 0..len-1 (for the ~64 KiB boundary messages: all cuts within 600 bytes of either end and every 97th in between)");
     for f in universe(ctx.tier) {
         let gen = &f.gen;
